@@ -399,7 +399,10 @@ func (w *worker[T, JobType]) goRemoveIdleWorkers() {
 			for _, node := range nodes[targetIdleWorkers:] {
 				if node.Value.GetLastUsed().Add(interval).Before(time.Now()) &&
 					!(node.Next() == nil && node.Prev() == nil) { // if both nil, it means the node is not in the list and not idle
-					w.pool.Remove(node)
+					// the dispatcher may have taken the node since the snapshot: then it is busy, not idle, and not ours to stop
+					if !w.pool.Remove(node) {
+						continue
+					}
 					node.Value.Stop()
 					w.pool.Cache.Put(node)
 				}
